@@ -1,6 +1,8 @@
 package ir
 
 import (
+	"crypto/sha256"
+	"encoding/hex"
 	"fmt"
 	"go/constant"
 	"go/token"
@@ -695,13 +697,26 @@ func (c *Canonicalizer) normalizeValue(v ssa.Value, preferredName ...string) str
 
 const MaxRenamerDepth = 20
 
+// MaxRenderedSCEV bounds the text a substituted value contributes to a recurrence. The
+// counter of a loop whose start AND step are the counter of the enclosing loop
+// (for j := i; j < n; j += i) is written {i, +, i}, with i written out as the enclosing
+// recurrence in both places: the text doubles with every nesting level (depth 22: 540 MB
+// of canonical IR for a 50-line function). A rendering above the bound is replaced by a
+// digest of itself, which keeps distinct expressions distinct, and every value is rendered
+// once per operand.
+const MaxRenderedSCEV = 512
+
 func (c *Canonicalizer) renamerFunc() loop.Renamer {
 	// Optimization: Slice-based stack avoids map allocation overhead
 	var stack []ssa.Value
 	depth := 0
+	rendered := make(map[ssa.Value]string)
 
 	var renamer loop.Renamer
 	renamer = func(v ssa.Value) string {
+		if s, ok := rendered[v]; ok {
+			return s
+		}
 		// A constant inside a recurrence (start, step, trip count): subject to the literal policy
 		// like every other integer literal.
 		if k, ok := v.(*loop.SCEVConstant); ok && c.virtualSubstitutions[v] == nil {
@@ -753,7 +768,13 @@ func (c *Canonicalizer) renamerFunc() loop.Renamer {
 			}
 
 			if scev, isScev := sub.(loop.SCEV); isScev {
-				return scev.StringWithRenamer(renamer)
+				s := scev.StringWithRenamer(renamer)
+				if len(s) > MaxRenderedSCEV {
+					sum := sha256.Sum256([]byte(s))
+					s = "<scev#" + hex.EncodeToString(sum[:12]) + ">"
+				}
+				rendered[v] = s
+				return s
 			}
 
 			current = sub
